@@ -67,6 +67,44 @@ def tasks_sampled(ctx):
     return t
 
 
+# two-submission histories: name -> number of jobs.  Shapes with two stages matter most: when results of the first
+# submission are on disk, jobs are taken as done from the stale result and the next stage is offered while
+# first-stage jobs of the second submission are still executing.
+TWO_QUICK = {"split2>b": 4, "fanout": 3, "one+chain2": 3, "chain2+chain2": 4, "diamond": 4, "indep3": 3}
+TWO_THOROUGH = {"split3>b": 6, "a>split2>c": 5, "split2+chain2": 4, "split2!>b": 3, "chain3": 3, "split3": 3, "fanin": 3, "diamond+one": 5, "split2+plain>c": 5, "chain3+b>split2": 6}
+TWO_SAMPLED = {"split4>b": 8, "split2>diamond": 10, "split2,split2>c": 8, "split5>b+split3": 13, "2x chain4 + split2": 10}
+MODES = [(False, True), (False, False), (True, True), (True, False)]  # (rerun, propagate_rerun)
+
+
+def tasks_two_submissions(ctx):
+    t = []
+    specs = dict(TWO_QUICK)
+    if ctx.thorough:
+        specs.update(TWO_THOROUGH)
+    for sp, n in specs.items():
+        for k in ks(n, ctx):
+            for prior in ("all", "partial"):
+                for rerun, prop in MODES:
+                    for vis in ((INF,), (0,)) + (((0, INF),) if ctx.thorough and n <= 4 else ()):
+                        if not ctx.thorough and vis == (0,) and (prior == "partial" or not (rerun and prop)):
+                            continue
+                        t.append((H.Opts(sp, loop="real", k=k, vis=vis, prior=prior, rerun=rerun, propagate=prop), 0, 1 if n >= 5 else 0))
+    return t
+
+
+def tasks_two_sampled(ctx):
+    n_s = ctx.pick(3, 25)
+    t = []
+    for sp, n in TWO_SAMPLED.items():
+        if not ctx.thorough and n > 10:
+            continue
+        for k in ks(n, ctx, full=False):
+            for prior in ("all", "partial"):
+                for rerun, prop in MODES if ctx.thorough else [(True, True), (False, True)]:
+                    t.append((H.Opts(sp, loop="real", k=k, vis=(0, 1, INF), multi=True, prior=prior, rerun=rerun, propagate=prop), n_s, 0))
+    return t
+
+
 def deductive(ctx):
     """engine D: one call of Submitter.get_runnable_tasks returns at most max_concurrent jobs (the
     bound across calls - jobs already in flight - is decided by the bounded histories only)"""
@@ -86,7 +124,9 @@ def run(ctx):
         "asynchronous loop (real expand_workflow_async with a scripted in-process worker, and the harness' mirror of it) and the sequential loop: "
         "for workflows of independent, split and chained jobs, every limit k = 1..number of jobs, every completion order and lock-file visibility "
         "pattern (real lock/result files as observations). Ghost state: executing = handed to the worker, not yet finished; contract: never more than "
-        "k jobs executing. Not covered: the worker's own pool size, asyncio scheduling, timing."
+        "k jobs executing. The same bound is checked for a SECOND submission of the workflow into a cache root that holds the results of a first one "
+        "(all jobs / part of the nodes), with rerun in {False, True} x propagate_rerun in {True, False}; there, in addition, a job whose result is stored "
+        "must not execute unless the rerun request reaches it. Not covered: the worker's own pool size, asyncio scheduling, timing."
     )
     try:
         bg = cf.ThreadPoolExecutor(1)
@@ -119,7 +159,35 @@ def run(ctx):
             rule="one case = one random script, distinct by choice list",
             exhaustive=False,
         )
-        stats = H.run_domains(ctx, "C16", [(d1, tasks_exhaustive(ctx), False), (d2, tasks_sync(ctx), False), (d3, tasks_sampled(ctx), False)])
+        ts = dict(TWO_QUICK)
+        if ctx.thorough:
+            ts.update(TWO_THOROUGH)
+        d4 = ctx.domain(
+            "second submission over a warm cache: rerun x propagate_rerun x k x completion orders (exhaustive)",
+            bound=(
+                f"workflows {ts} (name: jobs); a first submission into the same cache root has completed every job (prior=all) or only the jobs of the first half "
+                "of the nodes (prior=partial); the checked history is the SECOND submission under the real expand_workflow_async (scripted worker that, like Job.run, "
+                "returns a stored result without executing unless the loop passes rerun=True), rerun in {False, True} x propagate_rerun in {True, False} x k = 1..jobs x "
+                "every completion order, lock files never seen (stale results stay visible while a job re-executes)"
+                + (" / all seen (a re-execution clears its directory when it starts)" + (" / per job for <= 4 jobs" if ctx.thorough else " for prior=all with an effective rerun"))
+            ),
+            rule="one case = one second-submission history (workflow, prior, rerun, propagate_rerun, k, script choices); non-trivial = more jobs than k; "
+            "contract: never more than k jobs handed to the worker and unfinished; a job with a stored result is executed only if rerun and propagate_rerun",
+            exhaustive=True,
+        )
+        d5 = ctx.domain(
+            "second submission over a warm cache: 8-13 jobs (sampled)",
+            bound=f"workflows {TWO_SAMPLED if ctx.thorough else {k: v for k, v in TWO_SAMPLED.items() if v <= 10}}, prior in {{all, partial}}, "
+            + ("all four rerun/propagate_rerun modes" if ctx.thorough else "rerun in {True, False} with propagate_rerun=True")
+            + f", k in {{1,2,3,n/2,n-1,n}}, {ctx.pick(3, 25)} random scripts each (visibility delay 0/1/never, several completions per observation), seed {ctx.seed}",
+            rule="one case = one random script of the second submission, distinct by choice list",
+            exhaustive=False,
+        )
+        stats = H.run_domains(
+            ctx,
+            "C16",
+            [(d1, tasks_exhaustive(ctx), False), (d2, tasks_sync(ctx), False), (d3, tasks_sampled(ctx), False), (d4, tasks_two_submissions(ctx), False), (d5, tasks_two_sampled(ctx), False)],
+        )
         tot = {}
         for st in stats:
             for k, v in st.items():
